@@ -74,6 +74,8 @@ def model_stalls(mres):
 def compare(sc, mres, units, r):
     """Returns None if the implementation run `r` agrees with the model, else a description.
     The is_timeout() flag is not compared here (C20 owns it)."""
+    if r.get("results") == "HANG":
+        return "client hung (no result within the watchdog limit): endless wait or busy loop"
     if "error" in r or r.get("results") == "PANIC":
         if mres[0] == "panic" or "panic" in mres:
             return None if r.get("results") == "PANIC" else "model panics, impl: %s" % str(r)[:200]
@@ -94,7 +96,7 @@ def compare(sc, mres, units, r):
     mstream = b"".join(b for _, b in units)
     if stream != mstream:
         return "client byte stream differs: impl=%r model=%r" % (stream[:300], mstream[:300])
-    if any(e[0] in ("T", "WERR") for e in srv["events"]):
+    if any(e[0] == "T" for e in srv["events"]):   # (a failed peer write after the client has gone is a benign race)
         return "scripted peer timed out waiting for the client (unit framing differs): %s" % [e[0] for e in srv["events"]]
     Rs = [unhx(e[1]) for e in srv["events"] if e[0] in ("R", "R+")]
     if b"".join(Rs) != mstream:
